@@ -19,7 +19,7 @@ import (
 
 func init() {
 	register(&Prop{ID: "C12", Gen: genC12, Oracle: oracleC12,
-		Rule: "real archives written with archive/zip (raw headers, so declared sizes may disagree with the content): entry names = module prefix (correct, wrong, case-varied, missing) + paths from C17's pools and escapes (.., ../x, /abs, a\\b, empty, trailing /, duplicates, file-vs-directory, unicode, 300-byte names, go.mod placements, the 22 reserved Windows device names in every letter case with chains of 0-3 dot-separated suffixes as file / directory element / directory entry at depths 0-3 and their near misses); declared sizes honest, off by one, at 16MiB+-1, 500MiB+-1, 2^32, 2^63, 2^64-1; target directory missing / empty / non-empty / a file, given by a plain path (op zip.unzip) or (op zip.unzipat) with a trailing slash, through a symbolic link as final path element (relative, absolute, chain of two, followed by a slash; dangling in the oracle only), below a symlinked parent, the non-empty directory holding a file / a subdirectory / a go.mod / a symbolic link to a directory outside the target named like the first directory of the archive / a dangling link; sparse archive files above the size limit; non-trivial = every case; distinct by op line"})
+		Rule: "real archives written with archive/zip (raw headers, so declared sizes may disagree with the content): entry names = module prefix (correct, wrong, case-varied, missing) + paths from C17's pools and escapes (.., ../x, /abs, a\\b, empty, trailing /, duplicates, file-vs-directory, unicode, 300-byte names, go.mod placements, the 22 reserved Windows device names in every letter case with chains of 0-3 dot-separated suffixes as file / directory element / directory entry at depths 0-3 and their near misses; directories named with each of the letters whose case fold is shorter in UTF-8 (Kelvin sign, long s, Angstrom sign, ... 34 letters) with fold-equal siblings differing 0-2 bytes before the end, explicit directory entries, same-name files); declared sizes honest, off by one, at 16MiB+-1, 500MiB+-1, 2^32, 2^63, 2^64-1; target directory missing / empty / non-empty / a file, given by a plain path (op zip.unzip) or (op zip.unzipat) with a trailing slash, through a symbolic link as final path element (relative, absolute, chain of two, followed by a slash; dangling in the oracle only), below a symlinked parent, the non-empty directory holding a file / a subdirectory / a go.mod / a symbolic link to a directory outside the target named like the first directory of the archive / a dangling link; sparse archive files above the size limit; non-trivial = every case; distinct by op line"})
 }
 
 // osLimits: also use path elements longer than NAME_MAX (the model knows no operating-system limits).
@@ -76,7 +76,7 @@ func c12GenEntries(r *Rand, mp, mv string, osLimits bool) []zipuEntry {
 		}
 	}
 	for k := nmut; k > 0; k-- {
-		sel := r.Intn(18)
+		sel := r.Intn(20)
 		if kind >= 0 {
 			sel = kind
 		}
@@ -146,6 +146,20 @@ func c12GenEntries(r *Rand, mp, mv string, osLimits bool) []zipuEntry {
 				el = r.Pick(c12NearReserved)
 			}
 			add(prefix+dir+el+r.Pick([]string{"", "", "/x.go", "/", "/sub/y.txt"}), []byte("dev"))
+		case 18, 19:
+			// a directory whose name holds a letter with a shorter fold (util_c12fold.go), at the root or below the
+			// directory of an existing entry, with a fold-equal sibling / an explicit directory entry / further files
+			dir := ""
+			if len(es) > 0 && r.Bool() {
+				if e := es[r.Intn(len(es))]; strings.HasPrefix(e.name, prefix) {
+					if d := path.Dir(strings.TrimSuffix(e.name[len(prefix):], "/")); d != "." && d != "/" {
+						dir = d + "/"
+					}
+				}
+			}
+			for _, nm := range c12ShortFoldMutation(r, dir) {
+				add(prefix+nm, []byte("sf"))
+			}
 		case 13, 14, 15:
 			if len(es) > 0 { // declared size lies
 				i := r.Intn(len(es))
@@ -352,6 +366,12 @@ func genC12(g *Gen, n int) {
 		tok := zipuEntriesTok(es)
 		g.Emit("zip.checkzip "+hx("example.com/m")+" "+hx("v1.0.0")+" 0 "+tok, true, "reserved-dotted")
 		g.Emit("zip.unzip "+hx("example.com/m")+" "+hx("v1.0.0")+" 0 m "+tok, true, "reserved-dotted")
+	}
+	// letters with a shorter fold in directory components (util_c12fold.go)
+	for _, es := range c12ShortFoldSweep() {
+		tok := zipuEntriesTok(es)
+		g.Emit("zip.checkzip "+hx("example.com/m")+" "+hx("v1.0.0")+" 0 "+tok, true, "short-fold-dir")
+		g.Emit("zip.unzip "+hx("example.com/m")+" "+hx("v1.0.0")+" 0 m "+tok, true, "short-fold-dir")
 	}
 	// every modelled shape of the target argument (util_c12target.go) against four small archives
 	for _, es := range c12ShapeArchives() {
@@ -589,6 +609,13 @@ func oracleC12(g *Gen, n int) {
 		m := module.Version{Path: "example.com/m", Version: "v1.0.0"}
 		g.Case("reserved-dotted")
 		c12Check(g, m, es, "m", "zip.unzip "+hx(m.Path)+" "+hx(m.Version)+" 0 m "+zipuEntriesTok(es))
+	}
+	// letters with a shorter fold in directory components (util_c12fold.go)
+	for i, es := range c12ShortFoldSweep() {
+		m := module.Version{Path: "example.com/m", Version: "v1.0.0"}
+		t := string("me"[i%2])
+		g.Case("short-fold-dir")
+		c12Check(g, m, es, t, "zip.unzip "+hx(m.Path)+" "+hx(m.Version)+" 0 "+t+" "+zipuEntriesTok(es))
 	}
 	// every shape of the target argument (util_c12target.go) against four small archives
 	for _, es := range c12ShapeArchives() {
